@@ -7,16 +7,25 @@
 (* terminal state prints one JSON record: the input, the normal-form node  *)
 (* list or the error, the expected output and the features met.  A string  *)
 (* on which the reference lexer is nondeterministic prints one record per  *)
-(* acceptable outcome.                                                     *)
+(* acceptable outcome.  With Routes # {} every source of <= RK symbols is  *)
+(* additionally sent through every pre-lexing route (Transform action).   *)
 (* The harness generates a module that EXTENDS this one and defines the    *)
 (* sequence-valued constants (Prefix, Extra) for the cfg to substitute.    *)
 (***************************************************************************)
 EXTENDS MakoLexer, Json
-CONSTANTS Sym, K, First, Prefix, Extra, WithEmpty
+CONSTANTS Sym, K, First, Prefix, Extra, WithEmpty,
+          Routes,   \* pre-lexing routes (sequences of preprocessor operations); {}: only the direct route
+          RK,       \* sources of <= RK symbols (and MAGIC + <= RK-1 symbols) are sent through every route
+          RExtra    \* hand-picked longer sources sent through every route
 Strs(n) == UNION {[1..m -> Sym] : m \in 0..n}
 Inputs == {Prefix \o <<f>> \o s : f \in First, s \in Strs(K - 1)} \cup (IF WithEmpty THEN {Prefix} ELSE {}) \cup Extra
-MCInit == \E t \in Inputs : LexInit(t)
+RInputs == IF Routes = {} THEN {} ELSE Strs(RK) \cup {<<"MAGIC">> \o s : s \in Strs(RK - 1)} \cup RExtra
+Has(r, op) == \E i \in 1..Len(r) : r[i] = op
+\* the magic comment is only stepped over at the very start of the lexed text: nothing is inserted in front of it
+RouteOK(s, r) == (s # <<>> /\ s[1] = "MAGIC") => ~Has(r, "ins")
+MCInit == \/ \E t \in Inputs : LexInit(t)
+          \/ \E s \in RInputs : \E r \in Routes : RouteOK(s, r) /\ LexInitR(s, r)
 MCSpec == MCInit /\ [][LexNext]_lvars
-Record == [t |-> txt, n |-> nodes, e |-> err, o |-> ostk[1].buf, ft |-> feat]
+Record == [t |-> txt, n |-> nodes, e |-> err, o |-> ostk[1].buf, ft |-> feat, src |-> src, route |-> route]
 PrintTerminal == ~(fin /\ PrintT(ToJson(Record)) /\ FALSE)
 =============================================================================
